@@ -249,8 +249,9 @@ TAG_RE = re.compile(rb"^(H\d+|B\d+|CS)$")
 
 
 def observe(res):
-    """(ran verdict (stack) (trace) (pc)) -> ('runs', h) | ('rejects',) | ('fails',) | ('anomaly', text).
-    runs h: approved with exactly one handler log, that of h."""
+    """(ran verdict (stack) (trace) (pc)) -> ('runs', h) | ('approves', tags) | ('rejects',) | ('fails',) | ('anomaly', text).
+    runs h: approved with exactly one handler log, that of h; approves: approved with no or several handler logs;
+    anomaly: the run is inconclusive (unsupported opcode, fuel, unreadable program)."""
     if not isinstance(res, list) or not res or res[0] != S("ran"):
         return ("anomaly", repr(res)[:200])
     v = res[1]
@@ -259,7 +260,7 @@ def observe(res):
     if v == S("approve"):
         if len(tags) == 1:
             return ("runs", tag_handler(tags[0].decode()))
-        return ("anomaly", "approved with handler logs %r" % (tags,))
+        return ("approves", [t.decode() for t in tags])      # approved, but not "exactly one handler ran"
     if v == S("reject"):
         return ("rejects",)
     if v == S("fail"):
